@@ -152,10 +152,11 @@ impl TryFrom<&str> for Policy {
     type Error = error::Token;
 
     fn try_from(value: &str) -> Result<Self, Self::Error> {
-        Ok(biscuit_parser::parser::policy(value)
+        let (_, policy) = biscuit_parser::parser::policy(value)
             .finish()
-            .map(|(_, o)| o.into())
-            .map_err(biscuit_parser::error::LanguageError::from)?)
+            .map_err(biscuit_parser::error::LanguageError::from)?;
+        super::scope::check_parsed_scopes(&policy.queries)?;
+        Ok(policy.into())
     }
 }
 
@@ -163,9 +164,10 @@ impl FromStr for Policy {
     type Err = error::Token;
 
     fn from_str(s: &str) -> Result<Self, Self::Err> {
-        Ok(biscuit_parser::parser::policy(s)
+        let (_, policy) = biscuit_parser::parser::policy(s)
             .finish()
-            .map(|(_, o)| o.into())
-            .map_err(biscuit_parser::error::LanguageError::from)?)
+            .map_err(biscuit_parser::error::LanguageError::from)?;
+        super::scope::check_parsed_scopes(&policy.queries)?;
+        Ok(policy.into())
     }
 }
